@@ -49,7 +49,7 @@ RULE = (
     "tree height) and the parameterisation is recomputed from the separated heights; every leaf parameter may sit under 0-2 generated "
     "TransformedParameter layers (the unconstrained leaf is differentiated). For each leaf: up to 3 generated coordinates (simplex: tangent "
     "directions e_i - e_j) and one generated dense direction; finite-difference step = 1e-2 of the parameter (1e-2 for unconstrained leaves), "
-    "inside the domain by a factor 4 and moving no event time by more than delta/16. Non-trivial = the (owner class, parameter role) pair reaches "
+    "inside the domain by a factor 4 and moving no event time by more than 1/16 of the smallest gap between a movable event and any other event. Non-trivial = the (owner class, parameter role) pair reaches "
     "the value through an indexed / gathered / masked / in-place operation (table NT_FALSE lists the pairs that do not); distinct = (sub-check, "
     "owner class, role, options, rounded point). Labels count comparisons per 'owner/role'."
 )
@@ -61,8 +61,11 @@ ASSUMPTIONS = [
     "rate matrices whose symmetrised form has a repeated eigenvalue (relative gap < 1e-7: equal exchangeabilities, HKY/K80 with equal "
     "frequencies, kappa = 1, ...) are the subject of the deterministic sub-check degenerate_start (known finding) and are classified by the tag "
     "repeated_eig in the generated search; the spectrum is computed by numpy from the documented rate matrix (from q() for MG94)",
-    "tolerance 1e-6 max(1,|g|) + error estimate of the Richardson tableau (2 x last correction + 8 eps |f| / h); a comparison whose error "
-    "estimate exceeds 1e-4 max(1,|g|) is counted as inconclusive (label), never as a violation",
+    "tolerance 1e-6 max(1,|g|) + error estimate of the Richardson tableau (2 x last correction + (3 x measured evaluation noise + 8 eps |f|) / h; "
+    "step ratio 1.7); a comparison whose error estimate exceeds 1e-4 max(1,|g|) is counted as inconclusive (label), never as a violation; a "
+    "disagreement is reported only if two further tableaux with unrelated step sequences (0.77 h, 0.53 h) disagree with autograd as well "
+    "(rounding errors of the value - rare one-ulp flips amplified by cancellation in P(t) for short branches - were seen to be coherent along "
+    "one step sequence); label fd_not_confirmed counts the withdrawn ones",
     "influence is asserted when |g_fd| > 50 x error estimate + 1e3 x round-off floor",
     "the numerical derivative re-assigns .tensor with detached tensors and calls the model again: a cache that is not invalidated shows up as "
     "stale_value or as a mismatch and is reported (it makes the reported density differ from the one that is differentiated)",
@@ -294,10 +297,18 @@ def total(model):
     return model().sum()
 
 
-def event_gap(ev):
-    """smallest gap between two distinct event times"""
-    e = np.unique(np.asarray(ev, dtype=float))
-    return float(np.min(np.diff(e))) if e.size > 1 else math.inf
+def event_gap(ev, const):
+    """smallest gap between an event time that can move (internal node, grid point given as a parameter, epoch boundary, origin) and any
+    other event time; gaps between two constants (sampling times, fixed grid points) do not matter"""
+    e = np.asarray(ev, dtype=float)
+    c = np.asarray(const, dtype=bool)
+    o = np.argsort(e, kind="stable")
+    e, c = e[o], c[o]
+    if e.size < 2:
+        return math.inf
+    d = np.diff(e)
+    ok = ~(c[1:] & c[:-1])
+    return float(np.min(d[ok])) if np.any(ok) else math.inf
 
 
 class Engine:
@@ -333,6 +344,7 @@ class Engine:
             raise HarnessError("parameters without a role: %s" % extra)
         infos = [i for i in self.infos if i["leaf"] in leaves_all]
         leaves = {i["id"]: leaves_all[i["leaf"]] for i in infos}
+        self.leaf_of = leaves
         grads = None
         v_ad = None
         if ex["order"] == "ad_first":
@@ -468,13 +480,17 @@ class Engine:
                 self.lab("skipped:no_room")
                 continue
             if self.events is not None:
-                e0 = np.asarray(self.events(), dtype=float)
-                gap = event_gap(e0)
+                e0, const = self.events()
+                e0 = np.asarray(e0, dtype=float)
+                gap = event_gap(e0, const)
+                if not gap > 0:
+                    self.lab("skipped:tie")
+                    continue
                 for _ in range(6):
                     setx(h, d)
-                    e1 = np.asarray(self.events(), dtype=float)
+                    e1 = np.asarray(self.events()[0], dtype=float)
                     setx(-h, d)
-                    e2 = np.asarray(self.events(), dtype=float)
+                    e2 = np.asarray(self.events()[0], dtype=float)
                     move = max(float(np.max(np.abs(e1 - e0))) if e0.size else 0.0, float(np.max(np.abs(e2 - e0))) if e0.size else 0.0)
                     if move <= gap / 16.0:
                         break
@@ -491,9 +507,38 @@ class Engine:
 
             g, err, meta = numdiff.derivative(f, h)
             setx(0.0, d)
-            out.append({"dir": name, "d": d, "fd": g, "err": err, "noise": meta["noise"], "h": meta["h"], "finite": meta["finite"]})
+            out.append({"dir": name, "d": d, "fd": g, "err": err, "noise": meta["noise"], "h": meta["h"], "h0": h, "finite": meta["finite"]})
         p.tensor = x0.clone()
         return out
+
+    def confirm(self, inf, r, x0, bad):
+        """a tentative disagreement is re-examined with two other, unrelated step sequences (rounding errors of the value can be
+        coherent along one sequence); `bad(fd, err, noise)` -> disagreement?  Returns the list of confirming estimates, or None"""
+        p = self.leaf_of[inf["id"]]
+        shape = x0.shape
+        d = r["d"]
+        was = p.requires_grad
+        keep = p.tensor
+
+        def setx(t):
+            p.tensor = (x0.detach().reshape(-1) + t * torch.as_tensor(d, dtype=x0.dtype)).reshape(shape)
+
+        def f(t):
+            setx(t)
+            return self.value()
+
+        out = []
+        ok = True
+        for scale in (0.77, 0.53):
+            g, err, meta = numdiff.derivative(f, r["h0"] * scale, probes=6)
+            out.append([g, err])
+            if not meta["finite"] or err > 1e-4 * max(1.0, abs(g)) or not bad(g, err, meta["noise"]):
+                ok = False
+                break
+        p.tensor = keep  # the tensor that carries the gradient
+        if was and not p.requires_grad:
+            p.requires_grad = True
+        return out if ok else None
 
     def compare(self, inf, grad, fds, x0, ident):
         owner, role = inf["owner"], inf["role"]
@@ -520,22 +565,32 @@ class Engine:
             done += 1
             detail = {"direction": r["dir"], "fd": fd, "fd_error_estimate": err, "step": r["h"], "x": arr(x0).reshape(-1)[:12].tolist()}
             clear = abs(fd) > 50.0 * err + 1e3 * r["noise"]
+            kind = None
             if g is None:
                 if clear:
-                    self.fail(inf, "missing", detail)
+                    kind, bad = "missing", lambda a, e, nz: abs(a) > 50.0 * e + 1e3 * nz
                 elif abs(fd) > TOL + err:
-                    self.fail(inf, "mismatch", dict(detail, ad=None))
+                    kind, bad = "mismatch", lambda a, e, nz: abs(a) > TOL + e
+                    detail["ad"] = None
                 else:
                     self.lab("no_influence:" + name)
-                continue
-            ad = float(np.dot(g, r["d"]))
-            detail["ad"] = ad
-            if clear and ad == 0.0:
-                self.fail(inf, "zero", detail)
-            elif abs(ad - fd) > TOL * max(1.0, abs(fd)) + err:
-                self.fail(inf, "mismatch", detail)
-            if abs(fd) <= TOL and ad == 0.0:
-                self.lab("no_influence:" + name)
+                    continue
+            else:
+                ad = float(np.dot(g, r["d"]))
+                detail["ad"] = ad
+                if clear and ad == 0.0:
+                    kind, bad = "zero", lambda a, e, nz: abs(a) > 50.0 * e + 1e3 * nz
+                elif abs(ad - fd) > TOL * max(1.0, abs(fd)) + err:
+                    kind, bad = "mismatch", lambda a, e, nz, ad=ad: abs(ad - a) > TOL * max(1.0, abs(a)) + e
+                if abs(fd) <= TOL and ad == 0.0:
+                    self.lab("no_influence:" + name)
+            if kind is not None:
+                again = self.confirm(inf, r, x0, bad)
+                if again is None:
+                    self.lab("fd_not_confirmed")
+                else:
+                    detail["fd_other_steps"] = again
+                    self.fail(inf, kind, detail)
         if done:
             self.lab(name, done)
             self.lab("layers=%d" % inf["layers"], done)
@@ -559,7 +614,9 @@ def interior(p, lo=1e-3, hi=0.999):
 
 def heights_events(dic, tree_id="tree"):
     def ev():
-        return arr(dic[tree_id].node_heights).reshape(-1).tolist()
+        nh = arr(dic[tree_id].node_heights).reshape(-1).tolist()
+        n = (len(nh) + 1) // 2
+        return nh, [True] * n + [False] * (n - 1)
     return ev
 
 
@@ -841,9 +898,13 @@ def coal_events(dic, c):
     def ev():
         m = dic["coal"]
         e = arr(m.tree_model.node_heights).reshape(-1).tolist()
+        n = (len(e) + 1) // 2
+        const = [True] * n + [False] * (n - 1)
         if hasattr(m, "grid"):
-            e += arr(m.grid.tensor).reshape(-1).tolist()
-        return e
+            gv = arr(m.grid.tensor).reshape(-1).tolist()
+            e += gv
+            const += [not c.get("grid_param")] * len(gv)
+        return e, const
     return ev
 
 
@@ -991,6 +1052,7 @@ def bdsk_events(dic, target):
         m = dic[target]
         nh = arr(m.tree_model.node_heights).reshape(-1)
         e = nh.tolist()
+        n = (len(e) + 1) // 2
         org = float(arr(m.origin.tensor).reshape(-1)[0])
         if getattr(m, "origin_is_root_edge", False):
             org += float(nh[-1])
@@ -1001,7 +1063,7 @@ def bdsk_events(dic, target):
             if m.relative_times:
                 tv = tv * org
             e += (org - tv[1:]).tolist()
-        return e
+        return e, [True] * n + [False] * (len(e) - n)
     return ev
 
 
@@ -1362,7 +1424,7 @@ def body_joint(c0):
 
     def events():
         e = arr(dic["tree"].node_heights).reshape(-1).tolist()
-        return e + (grid or [])
+        return e + (grid or []), [True] * n + [False] * (n - 1) + [True] * len(grid or [])
 
     eng = Engine(res, dic, dic["joint"], infos, ex, events, tags)
     like_labels(eng, c)
